@@ -10,8 +10,8 @@
 use core::cmp::Ordering;
 
 use fpdec_core::{
-    checked_mul_pow_ten, i128_div_rounded, i128_shifted_div_rounded, ten_pow,
-    MAX_N_FRAC_DIGITS,
+    checked_mul_pow_ten, i128_div_rounded, i128_div_shifted_rounded,
+    i128_shifted_div_rounded, MAX_N_FRAC_DIGITS,
 };
 
 use crate::{Decimal, DecimalError};
@@ -86,14 +86,16 @@ pub(crate) fn checked_div_rounded(
             // divident / (divisor * 10 ^ shift)
             // we can calculate
             // (divident / divisor) / 10 ^ shift
-            // thus avoiding i128 overflow.
+            // (keeping track of the remainder of the first division, so
+            // that the result is rounded only once), thus avoiding i128
+            // overflow.
             // divident_n_frac_digits > shift
             shift = divident_n_frac_digits - shift;
-            // shift < divident_n_frac_digits => shift < 18 => ten_pow(shift)
-            // is safe
-            Some(i128_div_rounded(
-                divident_coeff / divisor_coeff,
-                ten_pow(shift),
+            // 0 < shift <= divident_n_frac_digits <= 18
+            Some(i128_div_shifted_rounded(
+                divident_coeff,
+                divisor_coeff,
+                shift,
                 None,
             ))
         }
